@@ -119,6 +119,23 @@ for _pad in range(6):
     SYNTAX.append(("syntax_long_multibyte_line_%d" % _pad, "Zz1 = " + "x" * _pad + " '\u00e9\u2192\u0171' " * 40 + "} ? 'caf\u00e9' " + "'\u00e9\u2192' " * 30 + ";\n"))
     SYNTAX.append(("syntax_long_multibyte_line_mid_%d" % _pad, "# \u00e9\u00e9\u00e9\nZz1 = " + "'\U0001F600' " * (20 + _pad) + ")" + " '\u00e9' " * 50 + ";\n"))
 
+TRICKY_LEX = """@export
+Top = {items:Item} $\u00ab\u00bb;
+Item = @:Quote | @:Hash | @:Str | @:Esc | @:Word\u00ab\u00bb;
+Quote = '\\'' | '"'\u00ab\u00bb;
+Hash = '\\'' '#' | '#'\u00ab\u00bb;
+Str = "\\"" {!"\\"" char} "\\"" | "'" {!"'" char} "'"\u00ab\u00bb;
+Esc = '\\\\' 'n' | '\\\\' '\\'' | "\\\\" "#"\u00ab\u00bb;
+# it's a comment with a quote ' and a hash # inside
+@string
+@no_skip_ws
+Word = {'a'..'z' | '#' | '\\''}+\u00ab\u00bb; # trailing comment with ' quote
+@no_skip_ws
+Whitespace = {Comment | ' ' | '\\n'}\u00ab\u00bb;
+@no_skip_ws
+Comment = '/' '/' {!'\\n' char} '\\n'\u00ab\u00bb; # last line comment
+"""
+
 # classes the property's rationale names as reaching panic!/unbounded recursion instead of an error
 RATIONALE = [
     ("rule_name_starts_with_digit", "1 = 'a';\n", {}),
@@ -155,6 +172,14 @@ RATIONALE = [
     ("duplicate_rule_name_char_and_normal", "Zz1 = 'a';\n@char\nZz1 = 'b';\n", {}),
     ("rule_referencing_itself_only", "Zz1 = Zz1;\n", {}),
     ("field_of_missing_rule", "Zz1 = x:ZzNope;\n", {}),
+    ("override_cycle_mutual", "Zz1 = @:Zz2;\nZz2 = @:Zz1;\n", {}),
+    ("override_cycle_self", "Zz1 = @:Zz1;\n", {}),
+    ("override_cycle_in_position_enum", "@position\nZz1 = @:Zz4 | @:Zz2;\nZz2 = @:Zz3;\nZz3 = @:Zz2;\n@position\nZz4 = 'x';\n", {}),
+    ("override_cycle_in_export_enum", "@export\nZz1 = @:Zz4 | @:Zz2;\nZz2 = @:Zz3;\nZz3 = @:Zz2;\nZz4 = 'x';\n", {}),
+    ("override_cycle_boxed", "Zz1 = @:*Zz2;\nZz2 = 'x' @:*Zz1 | 'y' @:*Zz1;\n", {}),
+    ("override_cycle_three", "Zz1 = @:Zz2;\nZz2 = @:Zz3;\nZz3 = @:Zz1;\n", {}),
+    ("field_cycle_unboxed", "Zz1 = a:Zz2;\nZz2 = b:Zz1;\n", {}),
+    ("leftrec_override_cycle", "@leftrec\nZz1 = @:Zz2 | @:Zz3;\nZz2 = l:*Zz1 '+';\nZz3 = @:Zz1;\n", {}),
     ("derive_is_a_path", "Zz1 = 'a';\n", {"derives": ["Debug", "Clone", "serde::Serialize"]}),
     ("derive_with_generics", "Zz1 = 'a';\n", {"derives": ["Debug", "PartialEq<u8>"]}),
     ("derive_starts_with_digit", "Zz1 = 'a';\n", {"derives": ["Debug", "1"]}),
@@ -208,12 +233,14 @@ class Cell:
         return {"fault": self.fault, "route": self.route, "expect": self.expect, "kind": self.kind,
                 "grammar": self.grammar.decode("utf-8", "backslashreplace") if self.grammar is not None else None,
                 "grammar_hex": self.grammar.hex() if self.grammar is not None else None,
-                "settings": self.settings, "setup": self.setup, "faults": self.faults, "dest_setup": self.dest_setup,
+                "settings": {k: (v.hex() if isinstance(v, bytes) else v) for k, v in self.settings.items()}, "setup": self.setup, "faults": self.faults, "dest_setup": self.dest_setup,
                 "format": self.fmt, "rustfmt": self.rustfmt}
 
     @staticmethod
     def from_json(j):
         g = bytes.fromhex(j["grammar_hex"]) if j.get("grammar_hex") is not None else None
+        if j.get("settings") and "base" in j["settings"]:
+            j["settings"]["base"] = bytes.fromhex(j["settings"]["base"])
         return Cell(j["fault"], j["route"], j["expect"], j["kind"], g, j.get("settings"), j.get("setup"), j.get("faults"),
                     j.get("dest_setup"), j.get("format", False), j.get("rustfmt", "present"))
 
@@ -249,7 +276,8 @@ def execute(cell, d, env, entropy):
     else:
         with open(gpath, "wb") as f:
             f.write(cell.grammar)
-    ds = cell.dest_setup
+    after_success = cell.dest_setup == "after_success"
+    ds = None if after_success else cell.dest_setup
     if ds == "dest_is_dir":
         os.makedirs(dest)
     elif ds == "dest_parent_missing":
@@ -278,6 +306,16 @@ def execute(cell, d, env, entropy):
     e = dict(env)
     if cell.rustfmt != "present":
         e["PATH"] = "/usr/bin:/bin"
+    if after_success and cell.route.startswith("compile"):
+        # history: a successful run on the valid base text first, then the edited text (whatever the first run left behind
+        # must not hide a failure of the second)
+        with open(gpath, "wb") as f:
+            f.write(cell.settings["base"])
+        c0 = run_child(argv, d, e, entropy=entropy)
+        if c0.rc != 0 or b"\nErr" in c0.out[:200]:
+            raise HarnessError("base grammar of an after-success cell did not compile: %r" % c0.out[:200])
+        with open(gpath, "wb") as f:
+            f.write(cell.grammar)
     c = run_child(argv, d, e, entropy=entropy, faults=faults, shim_log=shim_log)
     if cell.route.startswith("compile") and cell.kind in ("restriction", "syntax", "rationale", "io_read") and not c.crashed():
         # the same run once more in the same directory: whatever the first run left behind must not turn a failure into a success
@@ -424,6 +462,13 @@ def build_cells(seed, tier, pool):
                 reps = 1 if tier == "quick" else 3
                 for _ in range(reps):
                     variants.append(("+host", embed(rng, h, text)))
+            if kind == "restriction" and "Whitespace" not in text:
+                # position relative to other rules: checks done while walking the rules may depend on what came before
+                ws = "@no_skip_ws\nWhitespace = {' ' | '\\n'};\n"
+                variants.append(("+after_whitespace_rule", (ws + text).encode()))
+                variants.append(("+before_whitespace_rule", (text + ws).encode()))
+                exp = "@export\nZzTop = 'x' ZzNum;\n@string\n@no_skip_ws\nZzNum = {'0'..'9'}+;\n@char\nZzC = 'c';\n@extern(zz_e)\nZzE;\n"
+                variants.append(("+after_other_rules", (exp + text).encode()))
             for suffix, g in variants:
                 for r in ROUTES:
                     if r.startswith("cli") and settings.get("derives") == []:
@@ -439,6 +484,39 @@ def build_cells(seed, tier, pool):
         for suffix, g in variants:
             for r in ROUTES + CLI_PARSE_ONLY_ROUTES:
                 cells.append(Cell(fid + suffix, r, "fail", "syntax", g))
+    # small edits of a large valid grammar, compiled after a successful run on the unedited text (Compile routes)
+    nedit = 40 if tier == "quick" else 600
+    for i in range(nedit):
+        b = bytearray(big)
+        pos = rng.below(len(b))
+        k = rng.below(4)
+        if k == 0:
+            del b[pos]
+        elif k == 1:
+            b[pos:pos] = rng.choice([b"(", b")", b"'", b";", b"=", b"|", b"@", b"\\", b"}", b"i'\xc3\xa9'", b"$$"])
+        elif k == 2:
+            b[pos] = rng.choice(b"();='\"|@{}[]x#")
+        else:
+            b += rng.choice([b"# c", b"X = ;;", b"'", b"\n@nope\nY = 'y';\n"])
+        g = bytes(b)
+        cells.append(Cell("edit%04d" % i, "lib", "consistent", "damage", g))
+        for r in COMPILE_ROUTES:
+            cells.append(Cell("edit%04d" % i, r, "consistent", "damage", g, {"base": big}, dest_setup="after_success"))
+    # the same against a grammar full of lexically tricky lines (quotes in literals, '#' in literals, quotes in comments):
+    # a damaging edit at the end of every such line must be noticed, also after a successful run on the unedited text
+    mark = "\u00ab\u00bb"
+    tricky = TRICKY_LEX.replace(mark, "").encode()
+    nmarks = TRICKY_LEX.count(mark)
+    for mi in range(nmarks):
+        for ei, ins in enumerate([" ;; ", " i'\u00e9'"]):
+            parts = TRICKY_LEX.split(mark)
+            g = ("".join(p + (ins if k == mi else "") for k, p in enumerate(parts[:-1])) + parts[-1]).encode()
+            fid = "tricky_rule%02d_edit%d" % (mi, ei)
+            cells.append(Cell(fid, "lib", "fail", "syntax" if ei == 0 else "restriction", g))
+            for r in COMPILE_ROUTES:
+                cells.append(Cell(fid, r, "fail", "damage", g, {"base": tricky}, dest_setup="after_success"))
+    for r in ROUTES:
+        cells.append(Cell("control_tricky_lex", r, "ok", "control", tricky))
     # syntax damage: any answer but a crash; all routes must agree on accept/reject
     ndam = 40 if tier == "quick" else 1500
     srcs = [g for n, g in pool]
